@@ -1,14 +1,24 @@
-//! vx_txn: see /verif/harness/AGENTS-GUIDE.md; one module per property, dispatched on the property id.
+//! vx_txn: K2 stale-handle transaction histories; one module per property, dispatched on the property id.
+mod c03;
+mod c04;
+mod c18;
+mod c24;
+mod c39;
+mod k2;
+mod model;
 
 use vcore::{machinery_error, Ctx};
 
 fn main() {
     let ctx = Ctx::from_args();
     vcore::quiet_panics();
-    #[allow(clippy::match_single_binding)]
     let out: vcore::Outcome = match ctx.id.as_str() {
+        "C03" => c03::run(&ctx),
+        "C04" => c04::run(&ctx),
+        "C18" => c18::run(&ctx),
+        "C24" => c24::run(&ctx),
+        "C39" => c39::run(&ctx),
         other => machinery_error(&format!("vx_txn does not implement {other}")),
     };
-    #[allow(unreachable_code)]
     vcore::finish(&ctx, out);
 }
